@@ -157,6 +157,9 @@ pub fn main(args: &[String]) {
         wat += " (func $unused (result i32) i32.const 99 i32.const 98 drop)\n (func (export \"dead\") (result i32) (local i32 i64) i32.const 5 return i32.const 6 drop nop i32.const 7)\n (func (export \"ifs\") (param i32) (result i32) local.get 0 if (result i32) i32.const 1 else i32.const 2 end local.get 0 if nop end))";
         if let Ok(b) = wat::parse_str(&wat) { inputs.push((format!("sized-{}f-{}", nf, big), b)); } }
     if let Ok(b) = wat::parse_str("(module (func (export \"a\") (result i32) i32.const 1) (func (export \"lead\") (param i32) (result i32) nop local.get 0 i32.const 1 i32.add) (func (export \"b\") (result i32) i32.const 2 i32.const 3 drop))") { inputs.push(("leading-nop".into(), b)); }
+    let n_fixed_before_boundary = inputs.len();
+    inputs.extend(c11::boundary_bodies());
+    let n_fixed = inputs.len();
     let tab = sigs::build_table(Profile::Full, false, 8);
     let gcfg = GenCfg { profile: Profile::Full, max_funcs: 4, max_depth: 3, seq_len: 6, names: false, customs: false, start: false, active_segments: true };
     let mut k = 0; while k < n_gen { let (wasm, _) = gen::module(&mut r, &tab, &gcfg); if amod::validate(&wasm, feats).is_err() { continue; } inputs.push((format!("gen{}", k), wasm)); k += 1; }
@@ -165,7 +168,8 @@ pub fn main(args: &[String]) {
     for (idx, (name, wasm)) in inputs.iter().enumerate() {
         let a0 = match amod::decode(wasm) { Ok(a) => a, Err(_) => continue };
         for (ci, dc) in dcfgs.iter().enumerate() {
-            if idx >= 11 && (idx + ci) % 3 != 0 { continue; }   // generated modules rotate through the configurations
+            if idx >= n_fixed && (idx + ci) % 3 != 0 { continue; }   // generated modules rotate through the configurations
+            if idx >= n_fixed_before_boundary && idx < n_fixed && ci != 0 && ci != 2 { continue; }   // size-boundary modules: v4 per function and v4 one sequence   // generated modules rotate through the configurations
             let input = match synthesize(wasm, &a0, *dc) { Some(x) => x, None => continue };
             let ain = amod::decode(&input).unwrap(); let din = match read_dwarf(&input) { Some(d) => d, None => continue };
             for variant in [0u8, 1, 2] {
